@@ -48,6 +48,13 @@ def CheckpointsOwned (s : St) : Prop :=
 /-- after `~Router` every checkpoint vertex ever created has been freed -/
 def CheckpointsReleased (s : St) : Prop := s.alive = false ∧ ∀ v ∈ s.vcreated, v ∈ s.vfreed
 
+/-- every allocated `ClusterRef` is a member of `Router::clusterRefs` (nothing is unlinked without being
+    freed), so the public list is the complete set of live clusters -/
+def ClustersLinked (s : St) : Prop := ∀ k ∈ s.clusters, k.active = true
+
+/-- after `~Router` no `ClusterRef` is left and every cluster id ever created has been freed -/
+def ClustersReleased (s : St) : Prop := s.alive = false ∧ s.clusters = []
+
 /-- the model saw no use-after-free and no internal assertion (the historic `reentry` /
     `ctorBeforeRegister` faults are never raised since the upstream repairs) -/
 def NoFault (s : St) : Prop := s.faults = []
